@@ -194,9 +194,13 @@ pub fn blocks(thorough: bool) -> Vec<Block> {
         b.push(Block::new(Universe::new("U_pairs{a,b}^<=4", &["a", "b"], 4, 2, false), vec![Cfg::new(R), Cfg::with(R, 2, 1)], "r, r(2,1)"));
         b.push(Block::new(Universe::new("U_adv(A_gc)", A_GC, 2, 2, true), vec![Cfg::new(0), Cfg::new(R)], "{}, r"));
         b.push(Block::new(Universe::new("U_adv(A_cons)", A_CONS, 1, 3, false), vec![Cfg::new(0)], "{}"));
+        b.push(Block::new(Universe::new("U_abc3{a,b,c}", &["a", "b", "c"], 3, 4, false), vec![Cfg::new(0)], "{}"));
+        b.push(Block::new(u_prefix_suffix(), vec![Cfg::new(D), Cfg::new(W), Cfg::new(W | D), Cfg::new(D | R)], "d, w, w+d, d+r"));
         b.push(Block::new(Universe::new("U_adv(A_gcm)", A_GCM, 3, 1, false), vec![Cfg::new(0), Cfg::new(R), Cfg::new(NW)], "{}, r, W"));
     } else {
         b.push(Block::new(Universe::new("U_adv(A_cons)", A_CONS, 1, 4, false), vec![Cfg::new(0), Cfg::new(I)], "{}, i"));
+        b.push(Block::new(Universe::new("U_abc3{a,b,c}", &["a", "b", "c"], 3, 4, false), vec![Cfg::new(0), Cfg::new(R)], "{}, r"));
+        b.push(Block::new(u_prefix_suffix(), lattice_all(0, CLASS_BITS), "all 64 class subsets"));
         b.push(Block::new(Universe::new("U_adv(A_gcm)", A_GCM, 3, 2, false), vec![Cfg::new(0), Cfg::new(R), Cfg::new(NW)], "{}, r, W"));
         b.push(Block::new(Universe::new("U_ab3{a,b}", &["a", "b"], 3, 0, false), five.clone(), "{}, r, d+w, r+d, i"));
         b.push(Block::new(Universe::new("U_abc2{a,b,c}", &["a", "b", "c"], 2, 0, true), lattice_le(0, ALL_BITS & !(U | C | NA | NE), 2), "Lambda<=2 (anchored)"));
